@@ -31,5 +31,17 @@ theorem naming_module_name : @Generated.Funcs.naming_module_name = @Pinned.Funcs
 theorem new_naming_versioned_module_name : @Generated.Funcs.new_naming_versioned_module_name = @Pinned.Funcs.new_naming_versioned_module_name := rfl
 theorem old_naming_versioned_module_name : @Generated.Funcs.old_naming_versioned_module_name = @Pinned.Funcs.old_naming_versioned_module_name := rfl
 theorem metadata_doc : @Generated.Funcs.metadata_doc = @Pinned.Funcs.metadata_doc := rfl
+theorem address_str : @Generated.Funcs.address_str = @Pinned.Funcs.address_str := rfl
+theorem address_module_alias : @Generated.Funcs.address_module_alias = @Pinned.Funcs.address_module_alias := rfl
+theorem address_module_alias_ok : @Generated.Funcs.address_module_alias_ok = @Pinned.Funcs.address_module_alias_ok := rfl
+theorem address_proto : @Generated.Funcs.address_proto = @Pinned.Funcs.address_proto := rfl
+theorem address_proto_package : @Generated.Funcs.address_proto_package = @Pinned.Funcs.address_proto_package := rfl
+theorem address_versioned_package : @Generated.Funcs.address_versioned_package = @Pinned.Funcs.address_versioned_package := rfl
+theorem address_versioned_package_ok : @Generated.Funcs.address_versioned_package_ok = @Pinned.Funcs.address_versioned_package_ok := rfl
+theorem address_subpackage : @Generated.Funcs.address_subpackage = @Pinned.Funcs.address_subpackage := rfl
+theorem address_python_import : @Generated.Funcs.address_python_import = @Pinned.Funcs.address_python_import := rfl
+theorem address_rel : @Generated.Funcs.address_rel = @Pinned.Funcs.address_rel := rfl
+theorem address_rel_ok : @Generated.Funcs.address_rel_ok = @Pinned.Funcs.address_rel_ok := rfl
+theorem address_sphinx : @Generated.Funcs.address_sphinx = @Pinned.Funcs.address_sphinx := rfl
 
 end GapicModel.Bridge.Funcs
